@@ -6,6 +6,7 @@ import (
 	"fmt"
 	"math/big"
 	"strings"
+	"verif/harness/testkeys"
 
 	cose "github.com/veraison/go-cose"
 
@@ -438,6 +439,73 @@ func runC15(c *Ctx) {
 		}
 		if name != "generic-CurveParams-256" && name != "generic-384" && name != "generic-521" && (e1 == nil || e2 == nil) {
 			rec.Violate("unsupported-curve-accepted", name, fmt.Sprintf("NewKeyFromPublic/NewKeyFromPrivate accepted a key on %s (errors: %v, %v)", name, e1, e2), in)
+		}
+	}
+	// Go keys of families the COSE_Key conversion does not know must be refused (never a half-filled Key)
+	{
+		rk := testkeys.RSA(2048)
+		foreign := map[string][2]any{
+			"rsa":             {&rk.PublicKey, rk},
+			"rsa-by-value":    {rk.PublicKey, *rk},
+			"nil":             {nil, nil},
+			"string":          {"key", "key"},
+			"ecdsa-by-value":  {mat.full[0].PublicKey, *mat.full[0]},
+			"ed25519-pointer": {&mat.edX, &mat.edD},
+			"bytes":           {[]byte(mat.edX), []byte(mat.edD)},
+			"nil-ecdsa":       {(*ecdsa.PublicKey)(nil), (*ecdsa.PrivateKey)(nil)},
+		}
+		fnames := make([]string, 0, len(foreign))
+		for n := range foreign {
+			fnames = append(fnames, n)
+		}
+		sortStrings(fnames)
+		for _, n := range fnames {
+			in := map[string]any{"go_key_type": n}
+			var k1, k2 *cose.Key
+			var e1, e2 error
+			panicked := guard(rec, "NewKeyFromPublic/Private("+n+")", in, func() {
+				defer func() {
+					if n == "nil-ecdsa" {
+						_ = recover() // a typed nil key is a caller error: not judged
+					}
+				}()
+				k1, e1 = cose.NewKeyFromPublic(foreign[n][0])
+				k2, e2 = cose.NewKeyFromPrivate(foreign[n][1])
+			})
+			rec.Eval(2)
+			rec.Class("foreign-go-key/" + n)
+			if panicked || n == "nil-ecdsa" {
+				continue
+			}
+			if e1 == nil || e2 == nil || k1 != nil || k2 != nil {
+				rec.Violate("foreign-key-accepted", n, fmt.Sprintf("NewKeyFromPublic/NewKeyFromPrivate returned (%v, %v) / (%v, %v) for a Go value that is not an ECDSA or Ed25519 key", k1 != nil, e1, k2 != nil, e2), in)
+			}
+		}
+		// parameter labels that are neither integers nor text cannot be COSE_Key labels: the encoder refuses
+		// them, it never emits them
+		for ln, lab := range map[string]any{"float": 1.5, "bool": true, "bytes-array": [2]byte{1, 2}, "nil-label": nil, "struct": struct{ A int }{1}, "uint64-max": ^uint64(0), "int-label": int(-70001), "uint8-label": uint8(200)} {
+			k := &cose.Key{Type: cose.KeyTypeSymmetric, Params: map[any]any{int64(-1): []byte("0123456789abcdef"), lab: int64(1)}}
+			in := map[string]any{"param_label": ln}
+			var out []byte
+			var err error
+			if guard(rec, "Key.MarshalCBOR(label "+ln+")", in, func() { out, err = k.MarshalCBOR() }) {
+				continue
+			}
+			rec.Eval(1)
+			rec.Class("param-label/" + ln)
+			if err != nil {
+				rec.Event("param-label:refused")
+				continue
+			}
+			rec.Event("param-label:encoded")
+			if rerr := refcose.KeyRules(out); rerr != nil {
+				rec.Violate("produced-nonconforming-key", ln, "Key.MarshalCBOR emitted a key that violates the rules: "+rerr.Error()+": "+hexs(out), in)
+				continue
+			}
+			var back cose.Key
+			if derr := back.UnmarshalCBOR(out); derr != nil {
+				rec.Violate("produced-undecodable-key", ln, "Key.MarshalCBOR emitted a key its own decoder refuses: "+derr.Error()+": "+hexs(out), in)
+			}
 		}
 	}
 	rec.Require("accepted", 2000)
